@@ -204,8 +204,15 @@ func init() {
 func c06Explore(c c06Case, limit int, extra [][]int) (runs int, exhausted bool, bad *c06Case, err error) {
 	var outs []c06Outcome
 	var scheds [][]int
+	stop := false
 	one := func(choices []int) []int {
+		if stop {
+			return nil // a deadlock was found: no point in exploring further
+		}
 		o, _ := c06Run(c, choices, false)
+		if o.Deadlock || !o.Drained {
+			stop = true
+		}
 		outs = append(outs, o)
 		scheds = append(scheds, append([]int{}, choices...))
 		return o.Sizes
